@@ -24,16 +24,33 @@ Definition enc_hooks (h : hookmap) : json := JObj (map (fun kv => (fst kv, enc_s
 Definition enc_join (j : list (string * nat)) : json :=
   JObj (map (fun kv => (fst kv, JInt (Z.of_nat (snd kv)))) j).
 
-(* save_state(): a function of the state only (nothing is changed); None = a variable is not serialisable *)
-Definition save_json (e : estate) : option json :=
+(* story_metadata.get(key, "unknown"): the values of a compiled story's @metadata block are strings *)
+Definition meta_or_unknown (k : string) : json :=
+  match lookup k (metadata st) with Some s => JStr s | None => JStr "unknown" end.
+
+(* the "metadata" entry of the document *)
+Definition enc_save_meta : json :=
+  JObj [("passage_count", JInt (Z.of_nat (List.length (passages st))));
+        ("initial_passage", JStr (initial st))].
+
+(* save_state(): a function of the state, the story and the clock only (nothing is changed); None = a variable is
+   not serialisable.  All 12 keys of the real document, in its order.  now = self._get_timestamp()
+   (datetime.now().isoformat()), abstract.  load_state reads story_name / story_id only to print a warning and
+   never looks at story_version, timestamp or metadata: decode_doc / load below ignore the five of them. *)
+Definition save_json (now : string) (e : estate) : option json :=
   let c := ec e in
   match save_doc fuel fixed cx (vars c) with
   | None => None
   | Some sd =>
       Some (JObj [("version", JStr "0.1.0");
+                  ("story_version", meta_or_unknown "version");
+                  ("story_name", meta_or_unknown "title");
+                  ("story_id", meta_or_unknown "story_id");
+                  ("timestamp", JStr now);
                   ("current_passage_id", match cur c with Some p => JStr p | None => JNull end);
                   ("state", JObj sd);
                   ("used_choices", enc_strs (used c));
+                  ("metadata", enc_save_meta);
                   ("hooks", enc_hooks (hooks c));
                   ("join_section_index", enc_join (joinidx c));
                   ("current_output", match out c with Some o => out_enc o | None => JNull end)])
